@@ -1,9 +1,15 @@
 package lang
 
 import (
+	"expvar"
 	"fmt"
 	"sort"
+	"strconv"
 	"strings"
+
+	"github.com/google/mtail/internal/runtime/vm"
+	"github.com/prometheus/client_golang/prometheus"
+	dto "github.com/prometheus/client_model/go"
 
 	"github.com/google/mtail/internal/metrics"
 	"github.com/google/mtail/internal/runtime/code"
@@ -280,4 +286,32 @@ func hasMixedMetricRead(p *gen.Program) bool {
 		}
 	}
 	return false
+}
+
+// expvarMapInt reads an integer from one of mtail's expvar maps.
+func expvarMapInt(mapName, key string) int64 {
+	m, ok := expvar.Get(mapName).(*expvar.Map)
+	if !ok || m == nil {
+		return 0
+	}
+	v := m.Get(key)
+	if v == nil {
+		return 0
+	}
+	n, _ := strconv.ParseInt(v.String(), 10, 64)
+	return n
+}
+
+// processedLines is the number of lines the VM of program name has fully
+// processed (sample count of the exported line-processing histogram).
+func processedLines(name string) uint64 {
+	var m dto.Metric
+	h, err := vm.LineProcessingDurations.GetMetricWithLabelValues(name)
+	if err != nil {
+		return 0
+	}
+	if err := h.(prometheus.Metric).Write(&m); err != nil {
+		return 0
+	}
+	return m.GetHistogram().GetSampleCount()
 }
